@@ -9,7 +9,7 @@ from fjsa import shapes
 repo = Repo('/repo')
 out = {}
 for m in repo.modules.values():
-  for fi in m.functions():
-    out[f'{m.relpath}:{fi.qualname}'] = shapes.statement_hashes(fi.node)
+  for q, node in shapes.raw_functions(m.src).items():
+    out[f'{m.relpath}:{q}'] = shapes.statement_hashes(node)
 json.dump(out, open(os.path.join(ROOT, 'fjsa', 'known_shapes.json'), 'w'), indent=0, sort_keys=True)
 print(len(out), 'functions')
